@@ -331,6 +331,11 @@ M('c02-ratio-not-capped', ['C02'], Y21 + 'f1040_s8812.py', "FloatField('36', lam
 M('c02-ratio-as-multiple', ['C02'], Y21 + 'f1040_s8812.py', "FloatField('36', lambda s, i, v: min(1.0, v['34'] / v['35']), places=3),", "FloatField('36', lambda s, i, v: ceil((v['34'] / v['35']) / 1000.0) * 1000.0),", 'R2', 'ratio line computed as a multiple of 1000 (F23 reverted)')
 M('c02-8812-14-larger', ['C02'], Y23 + 'f1040_s8812.py', "FloatField('14', lambda s, i, v: min(v['12'], v['13']) if v['8_gt_11'] else 0.0),", "FloatField('14', lambda s, i, v: max(v['12'], v['13']) if v['8_gt_11'] else 0.0),", 'R2', 'Schedule 8812 line 14 takes the larger of lines 12 and 13')
 
+M('c02-carry-wrong-source-line', ['C02'], Y23 + 'f1040.py', "FloatField('8', lambda s, i, v: v['1040_s1.10'] if v['schedule_1_additional_income'] else None),", "FloatField('8', lambda s, i, v: v['1040_s1.9'] if v['schedule_1_additional_income'] else None),", 'R2', 'Form 1040 line 8 takes Schedule 1 line 9 although line 10 says "enter here and on Form 1040, line 8"')
+M('c02-carry-wrong-8812-line', ['C02'], Y23 + 'f1040.py', "                return v['1040_s8812.27']\n", "                return v['1040_s8812.17']\n", 'R2.7', 'Form 1040 line 28 takes Schedule 8812 line 17 instead of line 27 (the additional child tax credit)')
+M('c02-carry-halved', ['C02'], Y23 + 'f1040.py', "FloatField('20', lambda s, i, v: v['1040_s3.8'] if v['need_schedule_3_part_i'] else None),", "FloatField('20', lambda s, i, v: v['1040_s3.8'] * 0.5 if v['need_schedule_3_part_i'] else None),", 'R2', 'the amount carried from Schedule 3 line 8 is halved on Form 1040 line 20')
+M('c02-carry-spouse-form-dropped', ['C02'], Y23 + 'f1040_s1.py', "            hsa_deduction += v['8889:spouse.hsa_deduction'] if spouse_hsa else 0.0\n", "            hsa_deduction += v['8889:you.hsa_deduction'] if spouse_hsa else 0.0\n", None, 'Schedule 1 line 13 takes the taxpayer\'s Form 8889 line 13 twice and never the spouse\'s')
+
 # ------------------------------------------------------------------ C15
 M('c15-floor-misplaced', ['C15'], Y22 + 'f1040.py', "FloatField('22', lambda s, i, v: max(0.0, v['18'] - v['21'])),", "FloatField('22', lambda s, i, v: max(0.0, v['18']) - v['21']),", 'R15.2', 'misplaced parenthesis lets line 22 go negative (seed C15-A)')
 M('c15-floor-removed', ['C15'], Y23 + 'f1040.py', "FloatField('15', lambda s, i, v: max(0.0, v['11'] - v['14'])), # Taxable income", "FloatField('15', lambda s, i, v: v['11'] - v['14']), # Taxable income", 'R15.2', 'taxable income can go negative')
